@@ -467,7 +467,7 @@ func (x *progRun) runCode(emph string, frames int) {
 
 // ROMs of the fixed list by the property they matter to most (others run the whole list)
 var progRomsFor = map[string][]int{
-	"C02": {0, 2, 5, 6, 7}, "C03": {5, 6, 20, 22}, "C04": {1, 7, 13, 17}, "C05": {1, 7, 13},
+	"C01": {0, 2, 3, 4}, "C02": {0, 2, 5, 6, 7}, "C03": {5, 6, 20, 22}, "C04": {1, 7, 13, 17}, "C05": {1, 7, 13},
 	"C06": {6, 22, 23}, "C07": {6, 10, 22}, "C09": {23, 24, 25, 26}, "C10": {27}, "C12": {13, 14, 15, 16},
 	"C13": {17, 18, 19}, "C14": {17, 18, 19}, "C15": {8, 19}, "C16": {20, 21, 22}, "C17": {8, 9},
 	"C18": {10, 11, 12}, "C19": {10, 11}, "C20": {10, 11, 12}, "C21": {11, 12}, "C22": {0, 1}, "C23": {0, 5}, "C08": {23, 24, 25, 26},
